@@ -10,7 +10,7 @@ def run(ctx):
     n_path = _config.run_paths(ctx)
     ctx.cov["exhaustive"] = True
     ctx.rule("TLC enumerates (a) every list of config files within the weight bound over the key alphabet "
-             "{a, a.b, a.c, a.b.c} in every flat/nested spelling, leaves {1, 2, [1], [1,2]}, plus empty, malformed, "
+             "{a, a.b, a.c, a.b.c} (and the sibling keys a, ab, a.b, a.bb) in every flat/nested spelling, leaves {1, 2, [1], [1,2]}, plus empty, malformed, "
              "missing and non-object files (%d abstract cases, each written as real files in three concrete forms: "
              "abstract keys, real workspace.* keys, one file as .emmyrc.lua) and (b) every path string of the token "
              "bound over {~ / . a $ { } 2-byte-char workspaceFolder} (%d paths, each placed in workspaceRoots, library "
